@@ -15,6 +15,10 @@ func main() {
 	switch os.Args[1] {
 	case "func":
 		cmdFunc(os.Args[2:])
+	case "check":
+		cmdCheck(os.Args[2:])
+	case "selftest":
+		cmdSelftest(os.Args[2:])
 	default:
 		fmt.Fprintln(os.Stderr, "unknown command")
 		os.Exit(2)
